@@ -1,0 +1,7 @@
+//! Facade for the HTTP pages area (HttpPages): the manager's tracer, the
+//! link report's gate ids and `extract_msg_indices`. Everything else the
+//! harness needs is public API or in `verif::http` / `verif::manager`.
+pub use crate::manager::verif_hooks_httppages::{
+    extract_msg_indices, graph_gates, tracer,
+};
+pub use crate::tracing::{MsgRelation, Trace, TraceMsg, Tracer};
